@@ -97,22 +97,22 @@ func (m *txSortedMap) Forward(threshold uint64) types.Transactions {
 }
 
 // try to replace a big nonce tx to a small nonce tx
-func (m *txSortedMap) TryReplace(tx *types.Transaction) bool {
+// It returns the displaced transaction, or nil if nothing was replaced (the map is unchanged then).
+func (m *txSortedMap) TryReplace(tx *types.Transaction) *types.Transaction {
 	if m.index.Len() <= 0 {
-		return false
+		return nil
 	}
 
 	maxNonce := m.MaxNonce()
-	if maxNonce <= tx.Nonce() {
-		return false
+	if maxNonce <= tx.Nonce() || m.items[tx.Nonce()] != nil {
+		return nil
 	}
 
 	// get a minor nonce, delete old one and add minor.
+	displaced := m.items[maxNonce]
 	m.Remove(maxNonce)
-	if err := m.Add(tx); err != nil {
-		return false
-	}
-	return true
+	m.Put(tx)
+	return displaced
 }
 
 // return max nonce in txSortedMap, call from empty m will cause a panic.
